@@ -233,6 +233,12 @@ class Rig:
         if nparams == 4:
             def cb(msg, time, addr, port):
                 rig._on_inv(rid, ver, msg, time, addr, port)
+        elif nparams == 3:
+            def cb(msg, time, addr):
+                rig._on_inv(rid, ver, msg, time, addr, None)
+        elif nparams == 'var':
+            def cb(*args):
+                rig._on_inv(rid, ver, *args)
         elif nparams == 2:
             def cb(msg, time):
                 rig._on_inv(rid, ver, msg, time, None, None)
